@@ -5,6 +5,7 @@ vsim_core::interpose!();
 mod c12;
 mod c15;
 mod c19;
+mod c23;
 mod c24;
 pub mod eng;
 mod probe;
@@ -80,10 +81,22 @@ impl World for W1 {
                 stub: vec!["event source", "the process (crash = engine dropped after a completed checkpoint)"],
                 assumptions: vec!["steps whose outputs are equal as multisets but differently ordered (hash-map order after restore) are not judged", "finite values only (NaN/inf belong to C20, not claimed)"],
             },
+            Prop {
+                id: "C23",
+                batches: vec![
+                    Batch { name: "identity", quick: 6_000, thorough: 200_000, faulty: true },
+                    Batch { name: "edits", quick: 14_000, thorough: 500_000, faulty: true },
+                ],
+                rule: "one run = a program P with 1-4 independent streams (filter, count window + aggregate, 2/3-step sequence, 2-way join over helper streams), an edit P' from a small grammar (identity, filter threshold, added filter op, window size, renamed stream, added/removed sequence step, join window), 6-30 events over all consumed types, and the reload instant as a reconfiguration event anywhere in the history (sometimes a second, identical reload later). Three engines: A never reloaded, B reloaded, C freshly loaded with P' at the reload instant. Per stream over everything emitted after the reload: identity => B == A; changed/added stream => B == C; removed => silent; unchanged stream in a changed program => B == A or B == C. Non-trivial = >= 1 stream judged and some output after the reload; distinct = distinct decoded-trace hash.",
+                real: vec!["Engine::reload (change detection, router rebuild, state carry-over)", "Engine::load/process, parser"],
+                stub: vec!["event source"],
+                assumptions: vec!["for a stream whose definition is unchanged inside a changed program both 'state kept' and 'reset like fresh' are accepted (the statement only requires it to keep working)"],
+            },
         ]
     }
     fn run(&self, prop: &str, batch: &str, tape: &mut Tape, rep: &mut Report) {
         match prop {
+            "C23" => c23::run(batch, tape, rep),
             "C19" => c19::run(batch, tape, rep),
             "C24" => c24::run(batch, tape, rep),
             "C15" => c15::run(batch, tape, rep),
